@@ -525,4 +525,14 @@ def c07_g(ctx: Ctx):
     return out
 
 
-RULES = [c07_a, c07_b, c07_c, c07_d, c07_e, c07_f, c07_g]
+@rule("C07-h")
+def c07_h(ctx: Ctx):
+    """All spellings of a filter are evaluated against the same index: whether job documents are indexed does not depend on the order of the filter's keys (from C06-e)."""
+    from .c06 import c06_e
+    res = c06_e(ctx)
+    for r in res:
+        r.rule = "C07-h"
+    return res
+
+
+RULES = [c07_a, c07_b, c07_c, c07_d, c07_e, c07_f, c07_g, c07_h]
